@@ -110,6 +110,9 @@ class Interp:
         if name == "implies":
             a, b = ops.truth(self, args[0]), ops.truth(self, args[1])
             return VBool(t=z3.Implies(a.term(), b.term()))
+        if name == "maybe":
+            # ghost non-determinism: the event may or may not have happened (both cases are explored)
+            return self.new_list([args[0]] if self.path.choose(2, "maybe") == 0 else [])
         if name == "byte_at":
             vb, j = self.resolve(args[0]), self.resolve(args[1])
             return byte_val(vb.at(j.c if j.c is not None else j.as_int()))
